@@ -72,14 +72,14 @@ Proof.
 Qed.
 
 (* ---- one operation -------------------------------------------------------- *)
-Lemma okwf_frame_end t exc : okwf (frame_end t exc) = okwf t.
-Proof. reflexivity. Qed.
+Lemma okwf_frame_end t exc : okwf (frame_end t exc) = true -> okwf t = true.
+Proof. unfold frame_end. sproj. intros H. now apply andb_true_iff in H. Qed.
 
 Lemma okwf_sp_step_mono sc t o ob : okwf (sp_step sc t o ob) = true -> okwf t = true.
 Proof.
   destruct o, ob; cbn [sp_step]; try (unfold bad; sproj; rewrite andb_false_r; discriminate);
     try (rewrite okwf_sp_action; intros H; now apply andb_true_iff in H); auto.
-  rewrite okwf_frame_end. intros H. apply okwf_fold_mono in H. unfold tick in H. sproj.
+  intros H. apply okwf_frame_end in H. apply okwf_fold_mono in H. unfold tick in H. sproj.
   now apply andb_true_iff in H.
 Qed.
 
@@ -136,7 +136,7 @@ Proof.
     destruct log' as [|? ?]; [|discriminate].
     destruct (outcome_eqb exc (if e then OKeyError else OOk)) eqn:Ee; [|discriminate].
     injection Hs as <-.
-    rewrite okwf_frame_end in Hwf.
+    apply okwf_frame_end in Hwf.
     destruct (tick_rel s t b dt s1 W (0 <=? dt) HR HI1 Hst HW Hpc Hpv Hdn) as [HI2 HR2].
     destruct (loop_sim sc _ _ _ _ _ _ _ _ HI2 HR2 El Hwf) as (-> & b' & HI3 & HR3 & H08 & HL3).
     apply outcome_eqb_eq in Ee. subst exc.
